@@ -489,3 +489,72 @@ Proof.
 Qed.
 Lemma neg_min_max : dur_neg D_MIN = D_MAX /\ dur_neg D_MAX = D_MIN.
 Proof. split; reflexivity. Qed.
+
+(* ---- compose and the std::time conversions ---- *)
+Lemma compose_total_range d h mi s ms us ns :
+  0 <= d <= U64_MAX -> 0 <= h <= U64_MAX -> 0 <= mi <= U64_MAX -> 0 <= s <= U64_MAX -> 0 <= ms <= U64_MAX ->
+  0 <= us <= U64_MAX -> 0 <= ns <= U64_MAX ->
+  0 <= compose_total d h mi s ms us ns <= I128_MAX /\ in_i128 (- compose_total d h mi s ms us ns).
+Proof.
+  unfold compose_total, in_i128, in_range, U64_MAX, I128_MAX, I128_MIN.
+  change NANOSECONDS_PER_DAY with 86400000000000. change NANOSECONDS_PER_HOUR with 3600000000000.
+  change NANOSECONDS_PER_MINUTE with 60000000000. change NANOSECONDS_PER_SECOND with 1000000000.
+  change NANOSECONDS_PER_MILLISECOND with 1000000. change NANOSECONDS_PER_MICROSECOND with 1000.
+  intros. lia.
+Qed.
+Lemma compose_spec sg d h mi s ms us ns :
+  canon (compose sg d h mi s ms us ns) /\
+  val (compose sg d h mi s ms us ns) =
+    clamp (if sg <? 0 then - compose_total d h mi s ms us ns else compose_total d h mi s ms us ns).
+Proof. unfold compose. destruct (sg <? 0); apply from_total_spec. Qed.
+Lemma compose_total_mixed_radix d h mi s ms us ns :
+  compose_total d h mi s ms us ns = (((((d * 24 + h) * 60 + mi) * 60 + s) * 1000 + ms) * 1000 + us) * 1000 + ns.
+Proof.
+  unfold compose_total.
+  change NANOSECONDS_PER_DAY with 86400000000000. change NANOSECONDS_PER_HOUR with 3600000000000.
+  change NANOSECONDS_PER_MINUTE with 60000000000. change NANOSECONDS_PER_SECOND with 1000000000.
+  change NANOSECONDS_PER_MILLISECOND with 1000000. change NANOSECONDS_PER_MICROSECOND with 1000. ring.
+Qed.
+(* compose inverts decompose *)
+Lemma compose_decompose d : canon d ->
+  let '(sg, (D, h, mi, s, ms, us, ns)) := decompose d in compose sg D h mi s ms us ns = d.
+Proof.
+  intros Hd. destruct (decompose d) as [sg [[[[[[D h] mi] s] ms] us] ns]] eqn:E.
+  pose proof (decompose_spec d sg D h mi s ms us ns Hd E) as (_ & _ & _ & _ & _ & _ & _ & EQ & SN & _).
+  apply canon_unique; [apply compose_spec|exact Hd|].
+  rewrite (proj2 (compose_spec _ _ _ _ _ _ _ _)), compose_total_mixed_radix, <- EQ.
+  pose proof (canon_val_range d Hd) as R.
+  destruct (sg <? 0) eqn:S0; rewrite clamp_id; lia.
+Qed.
+Lemma to_std_spec d : canon d ->
+  to_std d = if val d <? 0 then (0, 0) else (val d / 1000000000, val d mod 1000000000).
+Proof.
+  intros Hd. unfold to_std. rewrite (total_canon d Hd). pose proof (canon_val_range d Hd) as R.
+  assert (SG : (signum d =? -1) = (val d <? 0)).
+  { unfold signum. destruct d as [c n]. unfold canon, val in *; cbn [centuries nanoseconds] in *. lits. nia. }
+  rewrite SG. destruct (val d <? 0) eqn:N; [reflexivity|].
+  assert (P : (0 <=? val d) = true) by lia. rewrite P.
+  unfold tdiv, trem. change NANOSECONDS_PER_SECOND with 1000000000.
+  rewrite Z.quot_div_nonneg, Z.rem_mod_nonneg by lia.
+  assert (val d / 1000000000 <= U64_MAX).
+  { unfold U64_MAX. apply Z.div_le_upper_bound; [lia|]. revert R. lits. lia. }
+  destruct (val d / 1000000000 <=? U64_MAX) eqn:Q; [reflexivity|lia].
+Qed.
+Lemma from_std_spec secs sub : 0 <= secs <= U64_MAX -> 0 <= sub < 1000000000 ->
+  canon (from_std secs sub) /\ val (from_std secs sub) = clamp (secs * 1000000000 + sub).
+Proof.
+  intros Hs Hn. unfold from_std.
+  assert (secs * 1000000000 + sub <= I128_MAX) by (unfold U64_MAX, I128_MAX in *; lia).
+  destruct (secs * 1000000000 + sub <=? I128_MAX) eqn:Q; [|lia]. apply from_total_spec.
+Qed.
+Lemma std_roundtrip d : canon d -> 0 <= val d -> let '(secs, sub) := to_std d in from_std secs sub = d.
+Proof.
+  intros Hd Hp. rewrite (to_std_spec d Hd). destruct (val d <? 0) eqn:N; [lia|].
+  pose proof (canon_val_range d Hd) as R.
+  pose proof (Z.div_mod (val d) 1000000000 ltac:(lia)) as DM. pose proof (Z.mod_pos_bound (val d) 1000000000 ltac:(lia)) as MB.
+  assert (0 <= val d / 1000000000 <= U64_MAX).
+  { split; [apply Z.div_pos; lia|]. unfold U64_MAX. apply Z.div_le_upper_bound; [lia|]. revert R. lits. lia. }
+  pose proof (from_std_spec (val d / 1000000000) (val d mod 1000000000) ltac:(lia) ltac:(lia)) as [FC FV].
+  apply canon_unique; [exact FC|exact Hd|].
+  rewrite FV. rewrite clamp_id; lia.
+Qed.
